@@ -91,7 +91,7 @@ def _job(job):
                         tag = tag + ':not-the-wholesale-replace'
                 fails.append({'what': f"same data loaded from {f} and {g} diffs with cost {c} (data {doc!r})",
                               'class': f'c09-nonzero-cost{tag}'})
-            if f != g and 'plist' not in (f, g) and not (trees[f] == trees[g]):
+            if f != g and 'plist' not in (f, g) and (not (trees[f] == trees[g]) or gt.canon(trees[f]) != gt.canon(trees[g])):
                 fails.append({'what': f"trees loaded from {f} and {g} are not equal (data {doc!r})", 'class': 'c09-trees-differ'})
             rc, out, err, exc = gt.run_cli([paths[f], paths[g], '--no-status', '--no-color'] + gt.cli_flags(opt))
             if exc is not None or rc != 0:
